@@ -81,6 +81,30 @@ def parseUOp : List String → Option (UOp Float)
   | "fitUb" :: r => match parseOptM3s r with | some [a, b] => some (.fitUb a b) | _ => none
   | _ => none
 
+def showOptF : Option Float → String | none => "nan" | some x => showFloat x
+def showPErr : PErr → String
+  | .dce => "dce" | .assertion => "AssertionError" | .valueError => "ValueError" | .zeroDiv => "ZeroDivisionError"
+  | .index => "IndexError" | .typeErr => "TypeError" | .linalg => "LinAlgError"
+def showPos (p : Solver.Pos Float) : String := String.intercalate " " (p.toList.map showFloat)
+def showVA (v : Solver.VAngles Float) : String :=
+  String.intercalate " " [showFloat v.theta, showFloat v.ttheta, showFloat v.qaz, showFloat v.alpha, showOptF v.naz,
+    showOptF v.tau, showOptF v.psi, showOptF v.beta, showFloat v.betain, showFloat v.betaout]
+
+partial def parseCons : Nat → List String → Option (Solver.ConList Float × List String)
+  | 0, r => some ([], r)
+  | k+1, nm :: v :: r =>
+    match Name.ofString? nm, (if v == "T" then some none else (parseFloat v).map some) with
+    | some n, some val => (parseCons k r).map fun (tl, r') => ((n, val) :: tl, r')
+    | _, _ => none
+  | _, _ => none
+
+/-- `UB(9) B(9) nphi(3) surf(3) k {name value|T}^k` -/
+def parseUBIn (ts : List String) : Option (Solver.UBIn Float × List String) :=
+  match parseFloats (ts.take 24) with
+  | some [u0,u1,u2,u3,u4,u5,u6,u7,u8, b0,b1,b2,b3,b4,b5,b6,b7,b8, n0,n1,n2, s0,s1,s2] =>
+    some ({ UB := ⟨u0,u1,u2,u3,u4,u5,u6,u7,u8⟩, B := ⟨b0,b1,b2,b3,b4,b5,b6,b7,b8⟩, n_phi := ⟨n0,n1,n2⟩, surf_nphi := ⟨s0,s1,s2⟩ }, ts.drop 24)
+  | _ => none
+
 def parseArg : List String → Option (Arg Float × List String)
   | "none" :: r => some (.none, r)
   | "false" :: r => some (.fals, r)
@@ -164,6 +188,33 @@ def step (st : DState) (line : String) : DState × String :=
     match parseUOp rest with
     | some op => let (s', r) := st.ubs.step op
                  ({ st with ubs := s' }, showUErr r ++ " | " ++ showUBS s')
+    | none => (st, "bad-op")
+  | "gp" :: kind :: rest =>
+    match parseUBIn rest with
+    | some (ub, k :: r) =>
+      match k.toNat?.bind (fun k => parseCons k r) with
+      | some (cs, r2) =>
+        match parseFloats r2 with
+        | some [h, kk, l, wl] =>
+          match Solver.Mode.ofCons cs with
+          | none => (st, "notimpl")
+          | some mode =>
+            let res := if kind == "full" then Solver.getPosition ub mode ⟨h, kk, l⟩ wl else Solver.hklToPosition ub mode ⟨h, kk, l⟩ wl
+            match res with
+            | .ok pairs => (st, s!"ok {pairs.length} | " ++ String.intercalate " ; " (pairs.map fun (p, va) => showPos p ++ " | " ++ showVA va))
+            | .error e => (st, showPErr e)
+        | _ => (st, "bad-op")
+      | none => (st, "bad-op")
+    | _ => (st, "bad-op")
+  | "va" :: rest =>
+    match parseUBIn rest with
+    | some (ub, r) =>
+      match parseFloats r with
+      | some [mu, de, nu, et, ch, ph] =>
+        match Solver.virtualAngles ub ⟨mu, de, nu, et, ch, ph⟩ with
+        | .ok va => (st, "ok " ++ showVA va)
+        | .error e => (st, showPErr e)
+      | _ => (st, "bad-op")
     | none => (st, "bad-op")
   | "cryst.B" :: rest =>
     match parseFloats rest with
